@@ -654,9 +654,14 @@ theorem slice_from_2 {α} (l : List α) : slice l (some (2 : Int)) none = l.drop
 
 theorem slice_block {α} (l : List α) (k n : Nat) (h : k + n ≤ l.length) :
     slice l (some (k : Int)) (some ((k : Int) + (n : Int))) = (l.drop k).take n := by
-  simp [slice, clampIndex]
-  trace_state
-  sorry
+  have h1 : ¬ ((k : Int) < 0) := by omega
+  have h2 : ¬ ((k : Int) + n < 0) := by omega
+  have h3 : ((k : Int) + n).toNat = k + n := by omega
+  simp only [slice, clampIndex, h1, h2, h3, if_false, Nat.min_eq_left h,
+    Nat.min_eq_left (show k ≤ l.length by omega), Int.toNat_natCast]
+  rw [List.drop_take]
+  congr 1
+  omega
 
 def atomEntries (env : DepEnv) : List AtomLine → M (List (Int × Option Attrs))
   | [] => pure []
@@ -676,7 +681,7 @@ def atomBlockMeaning (env : DepEnv) (atoms : List AtomLine) : M (Dict Int Attrs 
   let es ← atomEntries env atoms
   pure (Dict.ofPairs (nonStar es), stars es)
 
-abbrev AtomSt := MProd (Dict Int Attrs) (List Int)
+abbrev AtomSt := Dict Int Attrs × List Int
 def atomStep (s : AtomSt) (i : Int) (m : Option Attrs) : AtomSt :=
   match m with
   | none => ⟨s.1, s.2 ++ [i]⟩
@@ -711,6 +716,55 @@ theorem atomFold (es : List (Int × Option Attrs)) : ∀ s : AtomSt,
     cases m with
     | none => rw [List.foldl_cons, ih]; simp [atomStep, nonStar, stars]
     | some d => rw [List.foldl_cons, ih]; simp [atomStep, nonStar, stars, Dict.updatePairs]
+
+
+/-- the atom block of `atoms` sits in `lines` where the counts line says -/
+structure AtomBlockAt (lines : List (List Str)) (atoms : List AtomLine) : Prop where
+  counts : ∃ c cnt, lines[5]? = some c ∧ c[3]? = some cnt ∧ parseInt cnt = .ok (atoms.length : Int)
+  begin_ : ∃ l, lines[6]? = some l ∧ l.drop 2 = [py!"BEGIN", py!"ATOM"]
+  end_ : ∃ l, lines[7 + atoms.length]? = some l ∧ l.drop 2 = [py!"END", py!"ATOM"]
+  atoms : (lines.drop 7).take atoms.length = atoms.map AtomLine.tokens
+
+theorem getItem_idx (a : AtomLine) : getItem a.tokens (2 : Int) = .ok a.idx := rfl
+
+/-- **C07, atom block** (with the rejections of the individual lines) -/
+theorem _parse_atom_block_eq (env : DepEnv) (lines : List (List Str)) (atoms : List AtomLine)
+    (hb : AtomBlockAt lines atoms) (hshape : ∀ a ∈ atoms, a.Shape) :
+    Tucan.molfile_v3000_reader._parse_atom_block env lines = atomBlockMeaning env atoms := by
+  obtain ⟨c, cnt, h5, h3, hcnt⟩ := hb.counts
+  obtain ⟨lb, h6, hlb⟩ := hb.begin_
+  obtain ⟨le, h7, hle⟩ := hb.end_
+  have hlen : 7 + atoms.length ≤ lines.length := by
+    have := (List.getElem?_eq_some_iff.mp h7).1; omega
+  unfold Tucan.molfile_v3000_reader._parse_atom_block atomBlockMeaning
+  have g5 : getItem lines (5 : Int) = .ok c := getItem_nat lines 5 c h5
+  have g3 : getItem c (3 : Int) = .ok cnt := getItem_nat c 3 cnt h3
+  have g6 : getItem lines ((7 : Int) - 1) = .ok lb := getItem_nat lines 6 lb h6
+  have g7 : getItem lines ((7 : Int) + (atoms.length : Int)) = .ok le := by
+    have := getItem_nat lines (7 + atoms.length) le h7
+    push_cast at this; exact this
+  have hsl : slice lines (some (7 : Int)) (some ((7 : Int) + (atoms.length : Int))) = atoms.map AtomLine.tokens := by
+    rw [← hb.atoms]; exact slice_block lines 7 atoms.length hlen
+  have hjb : pyNe (join py!" " (slice lb (some (2 : Int)) none)) py!"BEGIN ATOM" = false := by
+    rw [slice_from_2, hlb]; rfl
+  have hje : pyNe (join py!" " (slice le (some (2 : Int)) none)) py!"END ATOM" = false := by
+    rw [slice_from_2, hle]; rfl
+  simp only [pyAdd_int, pyIter_list, g5, g3, hcnt, g6, g7, ok_bind, hjb, hje, hsl, Bool.false_eq_true, if_false]
+  rw [atomLoop env _ atoms]
+  · simp only [bind_assoc]
+    rcases atomEntries env atoms with e | es
+    · rfl
+    · simp only [ok_bind, pure_eq_ok, atomFold]
+      simp [Dict.updatePairs, Dict.ofPairs, stars]
+  · intro a ha s
+    simp only [getItem_idx, ok_bind, _parse_atom_attributes_eq env a (hshape a ha), bind_assoc]
+    rcases parseInt a.idx with e | i
+    · rfl
+    rcases atomMeaning env a with e | m
+    · rfl
+    cases m with
+    | none => simp [atomResult, atomStep, truthy]
+    | some d => simp [atomResult, atomStep, truthy]
 
 theorem X (env : DepEnv) (lines : List (List Str)) :
     Tucan.molfile_v3000_reader._parse_atom_block env lines = .error .key := by
